@@ -272,7 +272,10 @@ class Check:
                   assumptions=self.assumptions, wall_s=round(wall, 2), violations=len(self.violations))
         os.makedirs(EVID, exist_ok=True)
         json.dump(ev, open(os.path.join(EVID, self.pid + '.json'), 'w'), indent=1, default=str)
+        seen = set()
         for oid, what in self.known_hits:
+            if oid in seen: continue
+            seen.add(oid)
             print('KNOWN-FINDING: property=%s %s [%s]' % (self.pid, what, oid))
         for oid, fn, key in self.violations:
             print('VIOLATION property=%s replay=%s' % (self.pid, fn))
